@@ -27,6 +27,8 @@ def specLine (l : Line) : String :=
     | some a, some b => specCtorLine fn a b l.rawRes
     | _, _ => "FAIL bad args"
   | "zv", [_] => specZvLine l.rawRes
+  | "argkept", [_, what] =>
+    if l.rawRes == "true" then "ok" else s!"FAIL the library modified the caller's argument of {what}"
   | _, _ => "skip"
 
 def main : IO Unit := do
